@@ -351,6 +351,16 @@ def step_impl(a, o, dirty, op):
             return True, "?"
         st = guarded(lambda: canon(o))
         return False, (st[1] if st[0] == "ok" else _res(st))
+    if w[0] == "iter":
+        # walk the object with its own iterator protocol, if it has one (a read-only use)
+        def walk():
+            if hasattr(o, "__iter__"):
+                for _ in o:
+                    pass
+        st = guarded(walk)
+        if dirty:
+            return True, "?"
+        return st[0] != "ok", ("ok" if st[0] == "ok" else _res(st))
     if w[0] == "call":
         args = [pyval(parse_val(x)) for x in w[2:]]
         st = guarded(lambda: a.calls[w[1]](o, *args))
